@@ -408,16 +408,62 @@ def determinism_selftest(prop, verif_seed, tier, n_inproc, n_fresh):
     return True, "", n_inproc
 
 
-def print_digests(prop_id, n, tier, verif_seed):
+def print_digests(prop_id, n, tier, verif_seed, start=0):
     from simcore import shims
 
     shims.setup()
     prop = load_prop(prop_id)
     out = {}
-    for i in range(n):
+    for i in range(start, start + n):
         out[str(i)] = one_run(prop, verif_seed, i, tier)["digest"]
     print(json.dumps(out))
     return 0
+
+
+def selftest_determinism(ids, n, tier, verif_seed):
+    """Large-sample determinism proof: indices [0,n) of every property are executed in 8 fresh interpreters under
+    PYTHONHASHSEED=0 (slices of n/8) and again in 3 fresh interpreters under PYTHONHASHSEED=98765 (slices of n/3, i.e. a
+    different process/ordering layout); all digests must agree. Writes evidence_extra/determinism.json."""
+    import concurrent.futures as cf2
+
+    out = {}
+    rc = 0
+    for pid in ids:
+        t0 = time.time()
+
+        def job(args):
+            hs, start, cnt = args
+            p = fresh_exec([pid, "--digests", str(cnt), "--digest-start", str(start), "--tier", tier], hashseed=hs,
+                           env_extra={"VERIF_SEED": str(verif_seed)}, timeout=3000)
+            if p.returncode != 0:
+                return {"error": p.stderr[-500:]}
+            return json.loads(p.stdout.strip().splitlines()[-1])
+
+        a_jobs = [("0", s, min(-(-n // 8), n - s)) for s in range(0, n, -(-n // 8))]
+        b_jobs = [("98765", s, min(-(-n // 3), n - s)) for s in range(0, n, -(-n // 3))]
+        with cf2.ThreadPoolExecutor(max_workers=11) as ex:
+            res = list(ex.map(job, a_jobs + b_jobs))
+        A, B = {}, {}
+        err = None
+        for (hs, s, c), r in zip(a_jobs + b_jobs, res):
+            if "error" in r:
+                err = r["error"]
+                continue
+            (A if hs == "0" else B).update(r)
+        diff = [i for i in A if A[i] != B.get(i)]
+        ok = err is None and not diff and len(A) == n
+        out[pid] = {"indices": n, "layouts": "8 procs x PYTHONHASHSEED=0 vs 3 procs x PYTHONHASHSEED=98765", "mismatches": len(diff),
+                    "first_mismatch": diff[:3], "error": err, "ok": ok, "wall_s": round(time.time() - t0, 1)}
+        print(f"[determinism] {pid}: {n} indices, mismatches={len(diff)} error={bool(err)} ({out[pid]['wall_s']}s)")
+        sys.stdout.flush()
+        if not ok:
+            rc = 2
+    os.makedirs(os.path.join(VERIF, "evidence_extra"), exist_ok=True)
+    path = os.path.join(VERIF, "evidence_extra", "determinism.json")
+    prev = json.load(open(path)) if os.path.exists(path) else {}
+    prev.update(out)
+    json.dump(prev, open(path, "w"), indent=1)
+    return rc
 
 
 def check(prop_id, tier, verif_seed):
@@ -583,6 +629,8 @@ def main(argv):
     ap.add_argument("--tier", default=os.environ.get("VERIF_TIER", "quick"))
     ap.add_argument("--replay")
     ap.add_argument("--digests", type=int)
+    ap.add_argument("--digest-start", type=int, default=0)
+    ap.add_argument("--selftest-determinism", type=int, metavar="N", help="N indices per property, across processes and hash seeds")
     ap.add_argument("--setup", action="store_true")
     ap.add_argument("--one", type=int, help="run a single index verbosely")
     a = ap.parse_args(argv)
@@ -595,8 +643,11 @@ def main(argv):
         return selftest.setup_check()
     if a.replay:
         return replay_file(a.replay)
+    if a.selftest_determinism is not None:
+        ids = [a.prop.upper()] if a.prop else ["C02", "C03", "C04", "C09", "C10", "C11", "C12", "C13", "C14", "C18", "C19"]
+        return selftest_determinism(ids, a.selftest_determinism, a.tier, verif_seed)
     if a.digests is not None:
-        return print_digests(a.prop, a.digests, a.tier, verif_seed)
+        return print_digests(a.prop, a.digests, a.tier, verif_seed, a.digest_start)
     if a.one is not None:
         from simcore import shims
 
